@@ -32,6 +32,7 @@ import QEProofs.Lemmas.C05Final
 import QEProofs.Lemmas.C05Bits
 import QEProofs.Lemmas.C05Cap
 import QEProofs.Lemmas.C05PureMixed
+import QEProofs.Lemmas.C05Brp
 namespace QE.C05
 open QE QE.MatAlg Finset
 
@@ -466,6 +467,103 @@ theorem ve_complete (m n : ℕ) (A B A' B' : ℕ → ℕ → K) (s r : ℕ → K
         refine Or.inr ⟨by omega, ?_⟩
         have : m + t - m = t := by omega
         rw [this]; exact h0
+
+/-! ### `_BestResponsePolytope.__init__`: what is handed to Qhull (all sizes)
+
+`Bm` is the opponent's `r × c` payoff array. These theorems discharge, from the code's own
+preprocessing, what `ve_sound` / `ve_complete` assume about the shifted matrices: they differ
+from the payoffs by one constant per own action (`brpShifted r Bm i j = Bm i j + brpShift r Bm j`
+by definition), are non-negative and have no zero column. -/
+
+/-- "Shift the payoffs to be nonnegative …" -/
+theorem brp_shifted_nonneg (r : ℕ) (Bm : ℕ → ℕ → K) (i j : ℕ) (hi : i < r) :
+    0 ≤ brpShifted r Bm i j := brpShifted_nonneg' r Bm i j hi
+
+/-- "… and have no zero column": every column of the shifted array has a positive entry -/
+theorem brp_shifted_col_pos (r : ℕ) (hr : 0 < r) (Bm : ℕ → ℕ → K) (j : ℕ) :
+    ∃ i, i < r ∧ 0 < brpShifted r Bm i j := brpShifted_col_pos' r hr Bm j
+
+/-- the translation is well defined: `trans_recip > 0` and no division by zero or by a negative
+    number in `D[…] /= (trans_recip - row_sums)` -/
+theorem brp_denominators_pos (r c : ℕ) (hr : 0 < r) (hc : 0 < c) (Bm : ℕ → ℕ → K) :
+    0 < brpTransRecip r c Bm ∧ ∀ i, i < r → 0 < brpTransRecip r c Bm - brpRowSum r c Bm i :=
+  brp_denominators_pos' r c hr hc Bm
+
+/-- **The points given to Qhull describe the best-response polytope translated by
+    `1/trans_recip`** (class docstring: `z = x − 1/trans_recip`), for both players' layouts
+    (`idx = 0`: non-negativity rows first; `idx = 1`: payoff rows first): `z` satisfies
+    `D z ≤ 1` row by row iff `x = z + 1/trans_recip` satisfies `x ≥ 0` and `B̂ x ≤ 1` for the
+    shifted payoffs `B̂`. -/
+theorem brp_points_polytope (idx r c : ℕ) (hidx : idx ≤ 1) (hr : 0 < r) (hc : 0 < c)
+    (Bm : ℕ → ℕ → K) (z : ℕ → K) :
+    (∀ k, k < r + c → ∑ j ∈ range c, (brpPoints idx r c Bm).get k j * z j ≤ 1) ↔
+      (∀ j, j < c → 0 ≤ z j + 1 / brpTransRecip r c Bm) ∧
+      (∀ i, i < r → ∑ j ∈ range c, brpShifted r Bm i j * (z j + 1 / brpTransRecip r c Bm) ≤ 1) := by
+  have hget : ∀ k j, k < r + c → j < c → (brpPoints idx r c Bm).get k j =
+      if (if idx = 0 then c else 0) ≤ k ∧ k < (if idx = 0 then c else 0) + r then
+        (brpShifted r Bm (k - (if idx = 0 then c else 0)) j * brpTransRecip r c Bm) /
+          (brpTransRecip r c Bm - brpRowSum r c Bm (k - (if idx = 0 then c else 0)))
+      else if k - (if idx = 0 then 0 else r) = j then - brpTransRecip r c Bm else 0 := by
+    intro k j hk hj
+    unfold brpPoints
+    exact M.get_tab _ _ _ _ _ hk hj
+  -- the two kinds of rows
+  have hpay : ∀ k i, k < r + c → i < r →
+      ((if idx = 0 then c else 0) ≤ k ∧ k < (if idx = 0 then c else 0) + r) →
+      k - (if idx = 0 then c else 0) = i →
+      ((∑ j ∈ range c, (brpPoints idx r c Bm).get k j * z j ≤ 1) ↔
+        ∑ j ∈ range c, brpShifted r Bm i j * (z j + 1 / brpTransRecip r c Bm) ≤ 1) := by
+    intro k i hk hi hcond hki
+    rw [← brp_pay_row r c hr hc Bm z i hi]
+    have : ∀ j ∈ range c, (brpPoints idx r c Bm).get k j * z j
+        = (brpShifted r Bm i j * brpTransRecip r c Bm) / (brpTransRecip r c Bm - brpRowSum r c Bm i) * z j := by
+      intro j hj
+      rw [hget k j hk (mem_range.mp hj), if_pos hcond, hki]
+    rw [sum_congr rfl this]
+  have hnn : ∀ k j0, k < r + c → j0 < c →
+      ¬ ((if idx = 0 then c else 0) ≤ k ∧ k < (if idx = 0 then c else 0) + r) →
+      k - (if idx = 0 then 0 else r) = j0 →
+      ((∑ j ∈ range c, (brpPoints idx r c Bm).get k j * z j ≤ 1) ↔
+        0 ≤ z j0 + 1 / brpTransRecip r c Bm) := by
+    intro k j0 hk hj0 hcond hkj
+    rw [← brp_nn_row r c hr hc Bm z j0 hj0]
+    have : ∀ j ∈ range c, (brpPoints idx r c Bm).get k j * z j
+        = (if j0 = j then - brpTransRecip r c Bm else 0) * z j := by
+      intro j hj
+      rw [hget k j hk (mem_range.mp hj), if_neg hcond, hkj]
+    rw [sum_congr rfl this]
+  rcases (by omega : idx = 0 ∨ idx = 1) with rfl | rfl
+  · simp only [if_true] at hpay hnn
+    constructor
+    · intro h
+      refine ⟨fun j hj => (hnn j j (by omega) hj (by omega) (by omega)).mp (h j (by omega)),
+        fun i hi => (hpay (c + i) i (by omega) hi (by omega) (by omega)).mp (h (c + i) (by omega))⟩
+    · rintro ⟨h1, h2⟩ k hk
+      by_cases hkc : k < c
+      · exact (hnn k k hk hkc (by omega) (by omega)).mpr (h1 k hkc)
+      · exact (hpay k (k - c) hk (by omega) (by omega) rfl).mpr (h2 (k - c) (by omega))
+  · simp only [if_neg (by omega : ¬ (1 = 0))] at hpay hnn
+    constructor
+    · intro h
+      refine ⟨fun j hj => (hnn (r + j) j (by omega) hj (by omega) (by omega)).mp (h (r + j) (by omega)),
+        fun i hi => (hpay i i (by omega) hi (by omega) (by omega)).mp (h i (by omega))⟩
+    · rintro ⟨h1, h2⟩ k hk
+      by_cases hkr : k < r
+      · exact (hpay k k hk hkr (by omega) (by omega)).mpr (h2 k hkr)
+      · exact (hnn k (k - r) hk (by omega) (by omega) rfl).mpr (h1 (k - r) (by omega))
+
+/-- the argument checks of `_BestResponsePolytope.__init__`: accepted iff the input has a
+    `num_opponents` attribute equal to 1 -/
+theorem brp_arg_check_iff (has : Bool) (k : ℕ) : brpArgCheck has k = "ok" ↔ has = true ∧ k = 1 := by
+  unfold brpArgCheck
+  cases has <;> by_cases hk : k = 1 <;> simp [hk]
+
+/-- non-vacuity (player 1's payoffs of von Stengel's game, and a matrix with a negative and a
+    constant non-positive column): shifts, `trans_recip`, one entry of `D` -/
+example : brpTransRecip 2 3 (fnOfMat [[3, 2, 3], [2, 6, 1]] : ℕ → ℕ → ℚ) = 18 ∧
+    (brpPoints 0 2 3 (fnOfMat [[3, 2, 3], [2, 6, 1]] : ℕ → ℕ → ℚ)).get 3 0 = 27 / 5 ∧
+    (List.range 3).map (brpShift 2 (fnOfMat [[-1, 0, 2], [3, 0, 2]] : ℕ → ℕ → ℚ)) = [1, 1, 0] := by
+  decide +kernel
 
 /-! ### the bit masks of `_vertex_enumeration_gen`, read as label sets (all `m + n`) -/
 
